@@ -262,6 +262,15 @@ def handle (S : Session) (toks : List String) : Session × String :=
     | some r, some e, some av, some tl =>
       (S, String.intercalate " | " (renderProgram (fpProgram (reducePN tl r) e av)))
     | _, _, _, _ => bad
+  | "PNCHECKV" :: v :: ts =>
+    match v.toNat?, ts.mapM (fun (t : String) => match t.splitOn ":" with
+        | [v, d, c] => (do
+            let v ← v.toNat?
+            let c ← parseSpace n c
+            if h : v < n then pure ({ v := ⟨v, h⟩, up := d == "up", c := c } : Trans n) else none)
+        | _ => none) with
+    | some v, some tl => if h : v < n then (S, verdict (faithfulVarB N tl ⟨v, h⟩)) else bad
+    | _, _ => bad
   | "ADOPT" :: rest => match parseDump n rest with
     | some d => ({ S with diag := d.toDiag }, "OK")
     | none => bad
